@@ -289,3 +289,6 @@ def run(ctx):
     from props import C12
     C12.r_pack_bits(ctx)
     C12.r_iter(ctx)
+    # `item_ids()` / `n_items()` / `contains` on a reader answer from the metadata of the last build: they describe the item
+    # store only as long as the staleness protocol (C06 rule set) refuses readers after any change -- re-evaluated here
+    C06.rules(ctx)
